@@ -16,6 +16,7 @@ import numpy
 
 from mpv import arr, models
 
+ANCHORS = ['mpilot/params.py:StringParameter.clean', 'mpilot/params.py:NumberParameter.clean', 'mpilot/params.py:BooleanParameter.clean', 'mpilot/params.py:PathParameter.clean', 'mpilot/params.py:ResultParameter.clean', 'mpilot/params.py:ListParameter.clean', 'mpilot/params.py:TupleParameter.clean', 'mpilot/params.py:DataParameter.clean', 'mpilot/params.py:DataTypeParameter.clean']   # repository functions the workload must enter (reported as anchors_reached / anchors_missed)
 LEVEL = "exploration"
 RULE = ("every parameter class x configuration (must_exist, valid_types of CSV and NetCDF reads, nested ListParameters, ResultParameter "
         "with/without output type and each is_fuzzy) x ~130 raw values of every kind the parser or API delivers x working directory in "
